@@ -682,7 +682,9 @@ def c16(tier):
     lay = {"NS": W(tier, 4, 5), "NI": W(tier, 3, 6)}   # separators / indents taken from the lists in harness/utils/c16_lines.go
     jobs = [T("utils", "VerifC16_TypeLine", dict(lay, N=n, D=d)), T("utils", "VerifC16_ExtendedTypeLine", dict(lay, N=n, D=d)),
             T("utils", "VerifC16_ConditionLine", dict(lay, N=n, D=d)), T("utils", "VerifC16_RelationLine", dict(lay, N=n, D=d)),
-            T("utils", "VerifC16_Column", {"N": 3}),
+            # declarations behind a lone carriage return inside a line
+            T("utils", "VerifC16_TypeLine", {"N": 2, "D": 2, "NS": 2, "NI": 2, "CRSEG": 1}), T("utils", "VerifC16_RelationLine", {"N": 2, "D": 2, "NS": 2, "NI": 2, "CRSEG": 1}),
+            T("utils", "VerifC16_Column", {"N": 3, "CRSEG": 1}),
             T("utils", "VerifC08_OddLines", {"T": W(tier, 1, 2), "NS": 3, "NI": 3}), T("utils", "VerifC08_FreeLine", {"L": W(tier, 6, 8)}),
             T("transformer", "VerifC03_PrePass", {"N": W(tier, 6, 8)}),
             T("transformer", "VerifC07_Merge", {"SCEN": 1, "N": 2, "NR": 1, "SEPS": 1, "CRLF": 1}),
